@@ -42,6 +42,8 @@ METAMODELS = {
     "single": "Model: 'only';",
     # match rules referring to a cycle of other match rules (the export renders match rules recursively)
     "match-cycle": "Model: v=Value w=Wrap; Value: 'v' Group; Group: '<' Inner '>' | ID; Inner: Group ('|' Group)*; Wrap: Value | Inner;",
+    # the meta-model of the textX language itself, as the registry hands it out (docs: "the textX language meta-model")
+    "textx-language": "Placeholder: 'unused';",
     # an abstract rule mixing a local class with a class of a REFERENCED language (registered as 'c29a' by the harness)
     "referenced-language": "reference c29a as a\nModel: bs+=B; B: 'B' name=ID ('->' t=[Target])? ('~' o=[a.A])?; Target: B | a.A;",
     # grammar files importing each other: every class of every (also indirectly) imported grammar belongs to the metamodel
@@ -162,7 +164,13 @@ def run_metamodel_case(name, via):
     finally:
         if name == "referenced-language":
             pass
-    classes = [c for ns, members in mm.namespaces.items() if ns != "__base__" for c in members.values()]
+    if name == "textx-language":
+        from textx import metamodel_for_language
+
+        mm = metamodel_for_language("textx")
+        if via.startswith("gen-"):
+            return True, {"metamodel": name, "via": via, "failures": [], "skipped": "the generators take a meta-model built from a grammar file"}
+    classes = [c for ns, members in (mm.metamodel if name == "textx-language" else mm).namespaces.items() if ns != "__base__" for c in members.values()]
     assert len(classes) >= (sum(len(re.findall(r"^\s*\w+\s*:|;\s*\w+\s*:", t)) for t in g.values()) if isinstance(g, dict) else 1)
     nonmatch = [c for c in classes if c._tx_type != "match"]
     bad = []
